@@ -38,11 +38,17 @@
 (*  set_save_interval   train -> consist -> loco -> components, and the     *)
 (*     friction brake by direct field assignment                            *)
 (*  a failing solve_step returns before save_state / step.                  *)
+(*  construction: the units come with their own interval u0, Consist::new   *)
+(*     (consist_model.rs:138) stores c0 and propagates it, the simulation   *)
+(*     constructor propagates v0 once more - so u0 and c0 leave no trace.   *)
+(*     Relist(v) = Consist::set_loco_vec(fresh units carrying u0) followed  *)
+(*     by set_save_interval(v) at the top, v possibly the interval already  *)
+(*     in force: it must reach the new units all the same.                  *)
 (* `Fault` switches in deliberate deviations (vacuity / mutation configs).  *)
 (***************************************************************************)
 EXTENDS Integers, Sequences, FiniteSets, TLC
 
-CONSTANTS Fault      \* "none" | "skip_fric" | "skip_gen" | "gate_next" | "save_on_err" | "step_first"
+CONSTANTS Fault      \* "none" | "skip_fric" | "skip_gen" | "gate_next" | "save_on_err" | "step_first" | "con_early_return"
 
 VARIABLES kind,      \* "loco" | "consist" | "setspeed" | "slts" | "timed"
           comp,      \* sequence of "conv" | "bel" | "hyb"
@@ -110,29 +116,53 @@ DoSave(s) == [j \in Idx(s) |->
 DoStep(s) == [j \in Idx(s) |-> [s[j] EXCEPT !.i = @ + 1]]
 Reached(n) == ~ \/ Fault = "skip_fric" /\ n.lvl = "fric"
                 \/ Fault = "skip_gen" /\ n.c = "gen"
-DoSet(s, v) == [j \in Idx(s) |-> IF Reached(s[j]) THEN [s[j] EXCEPT !.iv = v] ELSE s[j]]
+(* fault "con_early_return": Consist::set_save_interval does nothing when the consist already has v *)
+ConSkips(s, v) == Fault = "con_early_return" /\ \E a \in Idx(s) : s[a].lvl = "con" /\ s[a].iv = v
+DoSet(s, v) == [j \in Idx(s) |-> IF Reached(s[j]) /\ ~(ConSkips(s, v) /\ s[j].lvl \in {"con", "loco", "comp"})
+                                 THEN [s[j] EXCEPT !.iv = v] ELSE s[j]]
+(* the object tree right after construction: units(u0) -> Consist::new(c0) -> simulation(v0) *)
+UnderCon(n) == n.lvl \in {"loco", "comp"}
+Construct(kd, cp, u0, c0, v0) ==
+  LET fresh == Build(kd, cp, v0)
+      units == [j \in Idx(fresh) |-> IF UnderCon(fresh[j]) THEN [fresh[j] EXCEPT !.iv = u0]
+                                     ELSE IF fresh[j].lvl = "con" THEN [fresh[j] EXCEPT !.iv = c0] ELSE fresh[j]]
+      \* Consist::new: the struct literal already holds c0, then set_save_interval(c0)
+      built == IF kd = "loco" THEN units
+               ELSE [j \in Idx(units) |-> IF UnderCon(units[j]) /\ Fault # "con_early_return" THEN [units[j] EXCEPT !.iv = c0] ELSE units[j]]
+  IN DoSet(built, v0)
+(* set_loco_vec(fresh units) ; set_save_interval(v) - only before anything was saved or stepped *)
+DoRelist(s, u0, v) == DoSet([j \in Idx(s) |-> IF UnderCon(s[j]) THEN [s[j] EXCEPT !.iv = u0] ELSE s[j]], v)
 DoStepOk(s) == IF Fault = "step_first" THEN DoSave(DoStep(s)) ELSE DoStep(DoSave(s))
 DoStepErr(s) == IF Fault = "save_on_err" THEN DoSave(s) ELSE s
 
 ----------------------------------------------------------------------------
 (* Level B as a transition system: every schedule *)
-CONSTANTS Kinds, Comps, Intervals, MaxActs, MaxSets
+CONSTANTS Kinds, Comps, Intervals, MaxActs, MaxSets,
+          Cons       \* set of <<u0, c0>>: the units' own interval, the interval handed to Consist::new
 
 Ended == Len(sched) > 1 /\ sched[Len(sched)][1] = "Err"
-NSets == Cardinality({k \in Idx(sched) : sched[k][1] = "Set"})
+NSets == Cardinality({k \in Idx(sched) : sched[k][1] \in {"Set", "Relist"}})
 Room == ~Ended /\ Len(sched) <= MaxActs           \* sched[1] is the constructor call
 
+U0 == sched[1][3]       \* interval the units were built with
 Init == /\ kind \in Kinds /\ comp \in Comps /\ av \in Intervals
-        /\ nd = Build(kind, comp, av)
+        /\ \E uc \in Cons : /\ nd = Construct(kind, comp, uc[1], uc[2], av)
+                            /\ sched = << <<"New", av, uc[1], uc[2]>> >>
         /\ simi = IF kind \in {"loco", "consist"} THEN 1 ELSE -1
         /\ log = <<>>
-        /\ sched = << <<"New", av>> >>
 
+(* v may be the interval already in force: re-applying it must be harmless *)
 SetInterval == /\ Room /\ NSets < MaxSets
-               /\ \E v \in Intervals \ {av} :
+               /\ \E v \in Intervals :
                     /\ av' = v /\ nd' = DoSet(nd, v)
                     /\ sched' = Append(sched, <<"Set", v>>)
                /\ UNCHANGED <<kind, comp, simi, log>>
+
+Relist == /\ Room /\ NSets < MaxSets /\ log = <<>> /\ Len(sched) = 1
+          /\ \E v \in Intervals :
+               /\ av' = v /\ nd' = DoRelist(nd, U0, v)
+               /\ sched' = Append(sched, <<"Relist", v>>)
+          /\ UNCHANGED <<kind, comp, simi, log>>
 
 (* walk() before anything was stepped: the initial state is offered to save_state *)
 InitialSave == /\ Room /\ log = <<>>
@@ -153,6 +183,6 @@ StepErr == /\ Room
            /\ sched' = Append(sched, <<"Err", 0>>)
            /\ UNCHANGED <<kind, comp, simi, av, log>>
 
-Next == SetInterval \/ InitialSave \/ StepOk \/ StepErr
+Next == SetInterval \/ Relist \/ InitialSave \/ StepOk \/ StepErr
 Spec == Init /\ [][Next]_vars
 =============================================================================
